@@ -91,9 +91,10 @@ fn derive(nh: &[char], lead: usize, trail: usize, pal: &[char], cfg: Cfg, mode: 
 fn c05_palette() -> BoxedStrategy<Vec<char>> {
     prop_oneof![
         40 => (proptest::collection::vec(proptest::sample::select("abAB".chars().collect::<Vec<_>>()), 1..=3), proptest::collection::vec(proptest::sample::select("-_./:, 12".chars().collect::<Vec<_>>()), 1..=3)).prop_map(|(mut a, b)| { a.extend(b); a }),
-        25 => gen::palette(gen::PaletteKind::Ascii),
-        25 => gen::palette(gen::PaletteKind::Mixed),
-        10 => gen::palette(gen::PaletteKind::FoldingLower),
+        22 => gen::palette(gen::PaletteKind::Ascii),
+        22 => gen::palette(gen::PaletteKind::Mixed),
+        8 => gen::palette(gen::PaletteKind::FoldingLower),
+        8 => gen::palette(gen::PaletteKind::AsciiTwins),
     ]
     .boxed()
 }
@@ -115,7 +116,7 @@ impl Check for C05 {
         "C05"
     }
     fn rule(&self) -> String {
-        "haystack = 0-3 leading whitespace chars ++ core drawn from a small palette (letters + non-letters + digits, ASCII and non-ASCII) ++ 0-3 trailing whitespace chars; needle = substring of the normalized haystack at a generated position / ending at the last char / prefix / suffix / whole core / whole haystack / including surrounding whitespace / one-char mutation / independent; substring_match, prefix_match, postfix_match, exact_match (score-only and indices variants, every applicable representation pair). Oracle: naive all-occurrences reference (None iff no occurrence; start = leftmost occurrence among those whose first char earns the maximal reference bonus) and trimmed-region equality. Non-trivial: >= 2 occurrences with different bonuses, or an occurrence ending at the last char, or a needle whose first letter is at position >= 2, or a haystack with surrounding whitespace. Distinct by case hash.".into()
+        "haystack = 0-3 leading whitespace chars ++ core of 0-14 (a fifth: 15-40) chars drawn from a small palette (letters + non-letters + digits, ASCII and non-ASCII, ASCII characters with their bit-5 twins) ++ 0-3 trailing whitespace chars; needle = substring of the normalized haystack at a generated position / ending at the last char / prefix / suffix / whole core / whole haystack / including surrounding whitespace / one-char mutation / independent; substring_match, prefix_match, postfix_match, exact_match (score-only and indices variants, every applicable representation pair). Oracle: naive all-occurrences reference (None iff no occurrence; start = leftmost occurrence among those whose first char earns the maximal reference bonus) and trimmed-region equality. Non-trivial: >= 2 occurrences with different bonuses, or an occurrence ending at the last char, or a needle whose first letter is at position >= 2, or a haystack with surrounding whitespace. Distinct by case hash.".into()
     }
     fn assumptions(&self) -> Vec<String> {
         vec!["needle is normalized".into(), "U+000B: both whitespace readings used by the crate are accepted when they disagree".into()]
@@ -127,7 +128,7 @@ impl Check for C05 {
         }
     }
     fn strategy(&self, _tier: Tier) -> BoxedStrategy<MCase> {
-        (c05_palette(), proptest::collection::vec(any::<u16>(), 0..=14), ws_vec(), ws_vec(), gen::any_cfg(), nmode())
+        (c05_palette(), prop_oneof![4 => proptest::collection::vec(any::<u16>(), 0..=14), 1 => proptest::collection::vec(any::<u16>(), 15..=40)], ws_vec(), ws_vec(), gen::any_cfg(), nmode())
             .prop_map(|(pal, sels, lead, trail, cfg, mode)| {
                 let core = text_from(&pal, &sels);
                 let mut hay = lead.clone();
